@@ -203,6 +203,9 @@ def main():
         extra += ['"\\x%02x"' % b, "'\\x%02X'" % b]
     for cp in (0, 0x41, 0x7f, 0x80, 0x7ff, 0x800, 0xffff, 0x10000, 0x10ffff, 0xd7ff, 0xe000, 0xdfff, 0x110000):
         extra += ['"\\u{%x}"' % cp, "'\\u{%X}'" % cp]
+    # escapes far outside the code space and very long literals in the power-of-two radixes (a decimal literal beyond int()'s digit
+    # limit is a located diagnostic by design of the repair, checked in C10)
+    extra += ['"\\u{FFFFFFFFFFFFFFFFFFFFFFFF}"', "'\\u{FFFFFFFFFFFFFFFFFFFFFFFF}'", "'\\u{7FFFFFFF}'", "'\\u{80000000}'", '"\\u{100000000}"', '0x' + 'f' * 6000, '0b' + '1' * 20000, '9' * 4300]
     rng = random.Random(rep.seed)
     for _ in range(400 if quick else 4000):
         extra.append(''.join(rng.choice(alpha + ['0x', '0b', '0o', '_', '\\x41', '\\u{e9}', '//', '<=', '??', 'is', 'true', '"', '"']) for _ in range(rng.randrange(4, 12))))
